@@ -157,7 +157,23 @@ def main(argv=None):
         errors.append(f"counterexample for {u['label']} did not reproduce concretely (engine/stub error): "
                       f"params={json.dumps(u['params'])[:200]} model={u['model']} {u.get('replay_exception', '')}")
     errors += list(extra.get('errors', []))
-    violations += list(extra.get('violations', []))
+    for v in extra.get('violations', []):
+        if v.get('extra_replay') and hasattr(mod, 'replay_extra'):
+            import io, contextlib
+            buf = io.StringIO()
+            try:
+                with contextlib.redirect_stdout(buf):
+                    ok = bool(mod.replay_extra(v))
+            except Exception as ex:  # noqa
+                ok = False
+                buf.write(f"{type(ex).__name__}: {ex}")
+            if ok:
+                v.setdefault('info', {})['replay'] = buf.getvalue().strip()[:400]
+                violations.append(v)
+            else:
+                errors.append(f"solver counterexample for {v['label']} did not reproduce on the real code: {v.get('model')} {buf.getvalue()[:200]}")
+        else:
+            violations.append(v)
     for k, v in extra.get('reached', {}).items():
         reached[k] = reached.get(k, 0) + v
     missing = [lab for lab in getattr(mod, 'REQUIRED_REACH', []) if reached.get(lab, 0) == 0]
